@@ -88,3 +88,37 @@ def local_init_forwards_options(ck: Checker, rule: str) -> None:
                        construct=f"super().__init__ / {p}")
         if a.kwarg is not None:
             ck.require(a.kwarg.arg in splat, rule, fn, c, "remaining options travel on through **config", f"**{a.kwarg.arg} is not forwarded to super().__init__", construct="super().__init__ / **config")
+
+
+def state_rows_upserted_atomically(ck: Checker, rule: str) -> None:
+    """HashesCache.set_many: every row is written by ONE statement that inserts or overwrites (an upsert / INSERT OR
+    REPLACE) - never "look whether the key exists, then INSERT or UPDATE": between the look-up and the write another
+    writer sharing the database can insert the same key, and the loser fails with a UNIQUE constraint error."""
+    fn = ck.prog.func("hashfile.cache", "HashesCache.set_many")
+    texts = [x.value for x in ast.walk(fn.node) if isinstance(x, ast.Constant) and isinstance(x.value, str)]
+    joined = []
+    for x in ast.walk(fn.node):
+        if isinstance(x, (ast.Assign, ast.AnnAssign)) and getattr(x, "value", None) is not None:
+            parts = [c.value for c in ast.walk(x.value) if isinstance(c, ast.Constant) and isinstance(c.value, str)]
+            if parts:
+                joined.append(" ".join(parts).upper())
+    # statements kept as class-level constants and used here (`self._INSERT`)
+    cls = fn.cls
+    used_attrs = {a.attr for a in ast.walk(fn.node) if isinstance(a, ast.Attribute) and isinstance(a.value, ast.Name) and a.value.id in ("self", "cls")}
+    if cls is not None:
+        for st in cls.node.body:
+            tg = st.targets[0] if isinstance(st, ast.Assign) and len(st.targets) == 1 else (st.target if isinstance(st, ast.AnnAssign) else None)
+            if isinstance(tg, ast.Name) and tg.id in used_attrs and getattr(st, "value", None) is not None:
+                parts = [c.value for c in ast.walk(st.value) if isinstance(c, ast.Constant) and isinstance(c.value, str)]
+                if parts:
+                    joined.append(" ".join(parts).upper())
+    reads = [c for c in ast.walk(fn.node) if isinstance(c, ast.Call) and isinstance(c.func, ast.Attribute) and c.func.attr in ("get_many", "get", "fetchall", "fetchone")]
+    sel = [t for t in joined if t.lstrip().startswith("SELECT")]
+    ck.require(not reads and not sel, rule, fn, reads[0] if reads else fn.node, "set_many does not read the table before writing", "set_many reads the current rows before writing (check-then-insert): between the look-up and the write another writer sharing the database can insert the same key", construct="set_many / no read-before-write")
+    writes = [t for t in joined if "INSERT" in t or "UPDATE " in t or "REPLACE" in t]
+    ck.floor(rule, len(writes), 1, "SQL write statements in HashesCache.set_many")
+    for t in writes:
+        atomic = ("ON CONFLICT" in t and "DO UPDATE" in t) or "INSERT OR REPLACE" in t or t.lstrip().startswith("REPLACE")
+        ck.require(atomic, rule, fn, fn.node, "rows are written by a single insert-or-overwrite statement",
+                   f"`{t[:70]}...` is not an insert-or-overwrite: whether the key is new is decided by a separate look-up, so two writers recording the same new key race and one of them fails with a UNIQUE constraint error",
+                   construct=f"set_many / {t[:30]}")
